@@ -210,6 +210,81 @@ def c_couple_grain(ctx, it, cfg):
     ctx.prove('drag-updated-from-the-host-before-solving', [e[0] for e in log] == ['zener', 'solve'] and log[0][1] is m)
 
 
+@REG.contract('computeZenerRadius/drag-is-a-non-negative-sum-over-the-phases', [GG + ':GrainGrowthModel.computeZenerRadius', GG + ':GrainGrowthModel.computeZenerRadiusByN',
+              GG + ':GrainGrowthModel.setZenerParameters'], configs=[dict(name=w, which=w) for w in ('recorded-step', 'from-a-distribution')])
+def c_zener(ctx, it, cfg):
+    """the drag handed to constrainedGrowth (whose contract requires it to be non-negative): the sum over the precipitate phases WITH particles of
+    f^m / (K * mean radius), with the phase's own (m, K) where they were set and the global ones otherwise; phases without particles contribute nothing"""
+    g = it.get(GG, 'GrainGrowthModel')()
+    mA, KA = real(ctx, 'm_A', lambda v: v > 0), real(ctx, 'K_A', lambda v: v > 0)
+    mG, KG = real(ctx, 'm_all', lambda v: v > 0), real(ctx, 'K_all', lambda v: v > 0)
+    g.setZenerParameters(mG, KG)
+    g.setZenerParameters(mA, KA, phase='A')
+    before = snapshot(g)
+    P = 2
+    n = integer(ctx, 'n', lambda v: v >= 0)
+    L = integer(ctx, 'L')
+    ctx.assume(L > n)
+    Ravg = array(ctx, 'Ravg', (L, P), fact=lambda v, i, p: v >= 0)
+    vf = array(ctx, 'volFrac', (L, P), fact=lambda v, i, p: and_(v >= 0, v <= 1))
+    Vma = real(ctx, 'VmAlpha', lambda v: v > 0)
+    mom = [[real(ctx, 'M%d_%d' % (k, p), lambda v: v >= 0) for k in (0, 1, 3)] for p in range(P)]
+    xs = [object() for p in range(P)]
+
+    class PBM(object):
+        def __init__(self, p): self.p = p
+        def _chk(self, x):
+            if x is not xs[self.p]:
+                raise AssertionError('moment of another phase\'s distribution')
+        def ZeroMomentFromN(self, x): self._chk(x); return mom[self.p][0]
+        def ThirdMomentFromN(self, x): self._chk(x); return mom[self.p][2]
+        def MomentFromN(self, x, k):
+            self._chk(x)
+            return {0: mom[self.p][0], 1: mom[self.p][1], 3: mom[self.p][2]}[k]
+
+    class V(object):
+        def __init__(self, vm): self.Vm = vm
+
+    class Nuc(object):
+        def __init__(self, p): self.volumeFactor = real(ctx, 'volumeFactor%d' % p, lambda v: v > 0)
+
+    class Prec(object):
+        def __init__(self, p): self.volume, self.nucleation = V(real(ctx, 'VmBeta%d' % p, lambda v: v > 0)), Nuc(p)
+
+    class PD(object):
+        pass
+
+    class Mat(object):
+        volume = V(Vma)
+
+    class Model(object):
+        phases = ['A', 'B']
+        pData = PD()
+        matrixParameters = Mat()
+        precipitateParameters = [Prec(p) for p in range(P)]
+        PBM = [PBM(p) for p in range(P)]
+    m = Model()
+    m.pData.n, m.pData.Ravg, m.pData.volFrac = n, Ravg, vf
+    prm = [(mA, KA), (mG, KG)]
+    if cfg['which'] == 'recorded-step':
+        g.computeZenerRadius(m)
+        f = [vf.get(n, p) for p in range(P)]
+        R = [Ravg.get(n, p) for p in range(P)]
+    else:
+        g.computeZenerRadiusByN(m, xs)
+        f = [vmin(Vma / m.precipitateParameters[p].volume.Vm * m.precipitateParameters[p].nucleation.volumeFactor * mom[p][2], 1) for p in range(P)]
+        R = [ite(eq(mom[p][0], 0), 0, mom[p][1] / mom[p][0]) for p in range(P)]
+    z = g.fields['_z']
+    want = 0
+    for p in range(P):
+        want = want + ite(gt(R[p], 0), sym.power(f[p], prm[p][0]) / (prm[p][1] * R[p]), 0)
+    ctx.prove('drag = sum over phases with particles of f^m / (K * mean radius), own parameters where set', eq(z, want))
+    ctx.prove('drag-non-negative', ge(z, 0))
+    ctx.prove('no-particles-no-drag', implies(and_(*[eq(R[p], 0) for p in range(P)]), eq(z, 0)))
+    frame(ctx, 'model', g, before, modifies=('_z',))
+    ctx.prove('canary/global-parameters-for-every-phase', eq(z, sum(ite(gt(R[p], 0), sym.power(f[p], mG) / (KG * R[p]), 0) for p in range(P))), expect='refuted')
+
+
 from . import c07 as _c07, c05 as _c05
 # grain-size transport is the C07 contract with zero nucleation; the inner solve ends exactly at its end time (C05)
 REG.contracts.append(_c07.c_getdXdt.contract)
